@@ -18,6 +18,11 @@ the SQL text or NULL.  The record always has five columns here (the length check
 `MasterSchemaRow.__init__` has no `raise` and its other column reads would fail first), text columns
 hold text (a NULL or numeric name column is `AttributeError` in the code: outside the rows modelled).
 
+The model mirrors /repo after the repairs of C07-20 (comments between the index name and ON, and between ON
+and the table name, are skipped like those before the column list), C07-21 (`parse_comment_from_sql_segment`:
+a comment that is not closed runs to the end of the text; Model/Schema.lean `parseComment`) and C07-22 (the
+module arguments of a virtual table are optional: `name_may_end_statement` of the name reader).
+
 Unicode: as in Model/Schema.lean - `str.isspace` exactly, `str.upper` / `str.lower` on ASCII with the 19
 code points whose case mapping contains an ASCII letter answered `outsideModel`.  ViewRow and TriggerRow
 use neither, so they have no `outsideModel` answer at all.
@@ -120,22 +125,25 @@ def virtualName (name tblName cmd : Str) : Py Str := do
   else if sqlitePrefix.isPrefixOf tblName then .error .parseError
   else .ok rem
 
-/-- `VirtualTableRow.__init__`, second part: USING, the module name, the parenthesised module arguments,
-nothing after them; comments between the parts are collected -/
+/-- `VirtualTableRow.__init__`, second part: USING, the module name, the parenthesised module arguments if
+there are any, nothing after them; comments between the parts are collected -/
 def virtualModule (rem : Str) : Py (Str × List Str) := do
   let (rem, cs) ← takeComments (rem.length + 1) rem []
   if upper (rem.take 5) != kUSING then .error .parseError
   else do
     let rem := lstrip (rem.drop 5)
     let (rem, cs) ← takeComments (rem.length + 1) rem cs
-    -- the module name is read with the reader of table names
-    let (moduleName, rem) ← rowNameAndRest rem
+    -- the module name is read with the reader of table names; it may end the statement (repair of C07-22)
+    let (moduleName, rem) ← rowNameAndRest rem true
     let rem := lstrip rem
     let (rem, cs) ← takeComments (rem.length + 1) rem cs
-    let close ← closingParen rem
-    if !parenthesised (rem.take (close + 1)) then .error .parseError
-    else if !(lstrip (rem.drop (close + 1))).isEmpty then .error .parseError
-    else .ok (moduleName, cs)
+    -- the module arguments are optional
+    if rem.isEmpty then .ok (moduleName, cs)
+    else do
+      let close ← closingParen rem
+      if !parenthesised (rem.take (close + 1)) then .error .parseError
+      else if !(lstrip (rem.drop (close + 1))).isEmpty then .error .parseError
+      else .ok (moduleName, cs)
 
 /-- the text parsing of `VirtualTableRow.__init__` after the whitespace collapse; `cmd` is `sql_command` -/
 def virtualCmd (name tblName cmd : Str) : Py (Str × List Str) := do
@@ -163,13 +171,17 @@ def indexPrefix (cmd : Str) : Py (Bool × Nat) :=
   else .error .parseError
 
 /-- `IndexRow.__init__`: the index name, ON, the table name, and their comparison with the name columns;
-answers the text that follows the table name (left-stripped) -/
-def indexNames (name tblName rem : Str) : Py Str := do
+answers the text that follows the table name (left-stripped) and the comments met on the way -/
+def indexNames (name tblName rem : Str) : Py (Str × List Str) := do
   let (iname, rem) ← rowNameAndRest rem
   let rem := lstrip rem
+  -- comments after the index name, before ON (repair of C07-20)
+  let (rem, cs) ← takeComments (rem.length + 1) rem []
   if upper (rem.take 2) != kON then .error .parseError
   else do
     let rem := lstrip (rem.drop 2)
+    -- comments after ON, before the table name (repair of C07-20)
+    let (rem, cs) ← takeComments (rem.length + 1) rem cs
     let (tname, rem) ← rowNameAndRest rem
     let rem := lstrip rem
     let ne1 ← lowerNe iname name
@@ -177,25 +189,28 @@ def indexNames (name tblName rem : Str) : Py Str := do
     else do
     let ne2 ← lowerNe tname tblName
     if ne2 then .error .parseError
-    else .ok rem
+    else .ok (rem, cs)
+
+/-- `IndexRow.__init__`: what may follow the indexed columns - comments, then nothing or WHERE …: (partial_index, comments) -/
+def indexTail (rem : Str) (cs : List Str) : Py (Bool × List Str) := do
+  let rem := lstrip rem
+  let (rem, cs) ← takeComments (rem.length + 1) rem cs
+  if rem.isEmpty then .ok (false, cs)
+  else if upper (rem.take 5) != kWHERE then .error .parseError
+  else .ok (true, cs)     -- (the comment loop after the WHERE test cannot run: the text begins with WHERE)
 
 /-- `IndexRow.__init__`: the parenthesised indexed columns and what may follow them: (partial_index, comments) -/
-def indexCols (rem : Str) : Py (Bool × List Str) := do
-  let (rem, cs) ← takeComments (rem.length + 1) rem []
+def indexCols (rem : Str) (cs : List Str := []) : Py (Bool × List Str) := do
+  let (rem, cs) ← takeComments (rem.length + 1) rem cs
   let close ← closingParen rem
   if !parenthesised (rem.take (close + 1)) then .error .parseError
-  else do
-    let rem := lstrip (rem.drop (close + 1))
-    let (rem, cs) ← takeComments (rem.length + 1) rem cs
-    if rem.isEmpty then .ok (false, cs)
-    else if upper (rem.take 5) != kWHERE then .error .parseError
-    else .ok (true, cs)     -- (the comment loop after the WHERE test cannot run: the text begins with WHERE)
+  else indexTail (rem.drop (close + 1)) cs
 
 /-- the text parsing of `IndexRow.__init__` after the whitespace collapse; `cmd` is `sql_command` -/
 def indexCmd (name tblName cmd : Str) : Py (Bool × Bool × List Str) := do
   let (unique, off) ← indexPrefix cmd
-  let rem ← indexNames name tblName (cmd.drop (off + 1))
-  let (p, cs) ← indexCols rem
+  let (rem, cs) ← indexNames name tblName (cmd.drop (off + 1))
+  let (p, cs) ← indexCols rem cs
   .ok (unique, p, cs)
 
 /-- the text parsing of `IndexRow.__init__` for an index that has SQL: (unique, partial_index, comments) -/
